@@ -3,7 +3,7 @@ import RichModel.Drv.Proto
 /- Driver handlers for property C11 (threads × console × live display; Model/Conc.lean).
 
 `conc_run  cfg  init  progs  events`   trace inclusion: replay a recorded real event trace on the model.
-  cfg    = `kind,W,H,record,transient,overflow`   kind 0 none / 1 live / 2 progress ; overflow 0 crop / 1 ellipsis / 2 visible
+  cfg    = `kind,W,H,record,transient,overflow,stopTailUnlocked`   kind 0 none / 1 live / 2 progress ; overflow 0 crop / 1 ellipsis / 2 visible
   init   = line list `n:l1,l2,…` : live = lines of the initial renderable, progress = task descriptions
   progs  = thread programs joined by `/`, operations joined by `|` :
            `P<lines>`  `K<lines>#<lines>…`  `N<lines>#<lines>#<lines>`  `U<refresh>;<lines>`  `R`  `S`  `X`  `V<id>;<n>`
@@ -48,10 +48,11 @@ def decOverflow : String → Option Overflow
 
 def decCfg (s : String) : Option (Cfg × Overflow) :=
   match s.splitOn "," with
-  | [k, w, h, rec, tr, ov] => do
+  | [k, w, h, rec, tr, ov, tl] => do
     let kind ← decKind k
     let ov ← decOverflow ov
-    some ({ kind := kind, width := ← w.toNat?, height := ← h.toNat?, record := decBool rec, transient := decBool tr }, ov)
+    some ({ kind := kind, width := ← w.toNat?, height := ← h.toNat?, record := decBool rec, transient := decBool tr,
+            stopTailUnlocked := decBool tl }, ov)
   | _ => none
 
 def decOp1 (s : String) : Option Op :=
